@@ -349,6 +349,33 @@ fn long_route_grid(r: &mut Runner) {
                 let mut x = rt.clone();
                 x.reverse();
                 out.push(x);
+                // routes that read the same once rendered as text: a piece of one denom moved across a
+                // separator into the neighbouring field, two hops fused into one
+                for i in 0..rt.len() {
+                    for sep in ['/', ',', ':', '|', ';', ' ', '-', '_'] {
+                        let (a, b) = (rt[i].token_in_denom.clone(), rt[i].token_out_denom.clone());
+                        for (pos, _) in a.match_indices(sep) {
+                            let mut x = rt.clone();
+                            x[i].token_in_denom = a[..pos].to_string();
+                            x[i].token_out_denom = format!("{}{sep}{b}", &a[pos + 1..]);
+                            out.push(x);
+                        }
+                        for (pos, _) in b.match_indices(sep) {
+                            let mut x = rt.clone();
+                            x[i].token_in_denom = format!("{a}{sep}{}", &b[..pos]);
+                            x[i].token_out_denom = b[pos + 1..].to_string();
+                            out.push(x);
+                        }
+                        if i + 1 < rt.len() {
+                            for inner in ['/', ',', ':', '|'] {
+                                let mut x = rt.clone();
+                                let nxt = x.remove(i + 1);
+                                x[i].token_out_denom = format!("{}{sep}{}{inner}{}{inner}{}", rt[i].token_out_denom, nxt.pool_id, nxt.token_in_denom, nxt.token_out_denom);
+                                out.push(x);
+                            }
+                        }
+                    }
+                }
                 out
             };
             let once = single(&route);
